@@ -185,3 +185,45 @@ def tree_search(repo, prop, tier, seed=1):
             shutil.rmtree(os.path.join(WORK_BASE, "des-drivers-target-" + tag), ignore_errors=True)
         fcntl.flock(lockf, fcntl.LOCK_UN)
         lockf.close()
+
+
+def net_search(repo, prop, tier, seed=1):
+    """C07 / C14 / C03 bounded replay (replay/net_driver): one module looped through a channel, on the real `des` crate."""
+    t0 = time.time()
+    os.makedirs(WORK_BASE, exist_ok=True)
+    lockf = open(os.path.join(WORK_BASE, "rt_driver.lock"), "w")
+    fcntl.flock(lockf, fcntl.LOCK_EX)
+    try:
+        count = 200000 if tier == "thorough" else 8000
+        res = {"what": "bounded replay on the real `des` crate of the parts no contract reaches: Channel::send_message / unbusy (busy window = size*8/bitrate, delivery = start + busy + latency, Drop / Queue(None) / Queue(limit) incl. 0, FIFO restart at the instant the channel becomes idle, offers exactly at the end of a transmission), the processing-element bracket at the module entry points (two elements, one consuming), and the emission order of events buffered in one activation (bursts of > 20 timers with ties): %d seeded random scenarios against a reference built on the abstract event order of unit core; jitter = 0" % count,
+               "bound": "%d random scenarios, <= 6 sends (every 10th: 22..41 timers); seed %d" % (count, seed), "labelled": "bounded", "counts_as_proof": False}
+        exe, err = _build_rt(repo, "net_driver")
+        if exe is None:
+            res.update({"status": "not_run", "reason": "driver does not build against this tree: " + err, "wall_s": round(time.time() - t0, 2)})
+            return res
+        try:
+            p = subprocess.run([exe, "search", str(count), str(seed), prop], stdout=subprocess.PIPE, stderr=subprocess.PIPE, timeout=900)
+        except subprocess.TimeoutExpired:
+            res.update({"status": "not_run", "reason": "time limit", "wall_s": round(time.time() - t0, 2)})
+            return res
+        line = (p.stdout.decode("utf8", "replace").strip().splitlines() or ["{}"])[-1]
+        try:
+            j = json.loads(line)
+        except Exception:
+            j = {}
+        res["wall_s"] = round(time.time() - t0, 2)
+        res["cmd"] = "net_driver search %d %d %s   (built from replay/net_driver against %s/des)" % (count, seed, prop, repo)
+        if j.get("mismatch"):
+            res.update({"status": "mismatch", "mismatch": j})
+        elif "scenarios" in j:
+            res.update({"status": "no_mismatch", "scenarios": j["scenarios"], "other_property_mismatch": j.get("other") or None})
+        else:
+            res.update({"status": "not_run", "reason": "driver crashed: " + p.stderr.decode("utf8", "replace")[-300:]})
+        return res
+    finally:
+        if repo != "/repo":
+            tag = hashlib.sha1(repo.encode()).hexdigest()[:8]
+            shutil.rmtree(os.path.join(WORK_BASE, "net_driver-" + tag), ignore_errors=True)
+            shutil.rmtree(os.path.join(WORK_BASE, "des-drivers-target-" + tag), ignore_errors=True)
+        fcntl.flock(lockf, fcntl.LOCK_UN)
+        lockf.close()
